@@ -191,10 +191,16 @@ def pie_cases(ctx, quick):
                 shapes = shapes_for(op, version, rng, reasons, quick)
                 for label, legal, items in shapes:
                     out, resp, sock = scripted_call(op, version, kwargs, items=items)
+                    if not sock.sent:
+                        # the method refused its arguments under this version before emitting anything
+                        ctx.count('pie.%s.%s.nothing-emitted:%s' % (op.name, version.name, out[1] if out[0] == 'other' else out[0]))
+                        break
                     if resp.request is None:
-                        # the request never reached the responder in decodable form: handled by the request check
-                        ctx.count('pie.%s.request-not-decodable' % op.name)
-                        continue
+                        ctx.violation({'client': 'pie', 'op': op.name, 'what': 'request-not-decodable', 'version': version.name},
+                                      {'method': op.name, 'arguments': repr(kwargs)[:400], 'kmip_version': version.name,
+                                       'request_hex': sock.sent[0].hex(), 'decoder_error': resp.request_error},
+                                      '%s emitted a request the server-side decoder rejects' % op.name)
+                        break
                     abstract = abstract_items(version, resp, items, False)
                     exp = None
                     if label == 'success':
@@ -207,7 +213,7 @@ def pie_cases(ctx, quick):
                     ctx.count('pie.%s.%s' % (label, out[0] if out[0] != 'other' else 'other:' + out[1]))
                     ctx.case_seen(('pie', op.name, version.name, label, cases[-1]), nontrivial=True)
                 # undecodable / corrupted bytes
-                for mlabel, mfn in mangles(rng):
+                for mlabel, mfn in (mangles(rng) if sock.sent and resp.request is not None else []):
                     base_items = rng.choice(shapes[:3])[2]
                     out, resp, sock = scripted_call(op, version, kwargs, items=base_items, mangle=mfn)
                     abstract = abstract_items(version, resp, base_items, True)
@@ -220,7 +226,20 @@ def pie_cases(ctx, quick):
     return cases, meta
 
 
+def load_own_findings(ctx):
+    """known_findings.json is merged by bin/mkmanifest; until then (and afterwards, harmlessly) read findings.d/C19.json too."""
+    import json
+    from pathlib import Path
+    p = Path(__file__).resolve().parents[1] / 'findings.d' / 'C19.json'
+    have = {f.get('id') for f in ctx.findings}
+    if p.exists():
+        for f in json.loads(p.read_text()):
+            if f.get('property') == 'C19' and f.get('id') not in have:
+                ctx.findings.append(f)
+
+
 def run(ctx):
+    load_own_findings(ctx)
     ctx.cov['rule'] = ('scripted responder: every ProxyKmipClient method x KMIP 1.0-2.0 x response shapes (success with generated '
                        'payload, every ResultReason in rotation, message present/absent/empty, operation echoed/absent/wrong, '
                        'pending/undone, 0/2 items, corrupted bytes) x chunkings; a case is distinct by (method, version, shape, '
